@@ -4,7 +4,8 @@ from harness.core import import_param
 param = import_param()
 
 SPECS = {"ax": ["a.x"], "axay": ["a.x", "a.y"], "aparam": ["a.param"], "axcx": ["a.x", "c.x"],
-         "abx": ["a.b.x"], "abxaby": ["a.b.x", "a.b.y"], "abxcx": ["a.b.x", "c.x"]}
+         "abx": ["a.b.x"], "abxaby": ["a.b.x", "a.b.y"], "abxcx": ["a.b.x", "c.x"],
+         "axcy": ["a.x", "c.y"], "azabx": ["a.z", "a.b.x"]}
 
 
 class Leaf(param.Parameterized):
@@ -14,6 +15,7 @@ class Leaf(param.Parameterized):
 
 class Mid(param.Parameterized):
     b = param.Parameter(None)
+    z = param.Integer(0)
 
 
 _TOPS = {}
@@ -96,6 +98,8 @@ def replay(beh, opts):
             mids[a["m"]].b = leaves.get(a["v"])
         elif n == "setleaf":
             setattr(leaves[a["l"]], a["f"], a["v"])
+        elif n == "setz":
+            mids[a["m"]].z = a["v"]
         seen_tags |= set(st.get("kf", []))
         bad = None
         if n != "init":
